@@ -89,7 +89,6 @@ void harness(void)
 
 	VERIF_ASSERT(ret == 0 || ret == -1, "C07.pax.sparse_mix.status");
 	VERIF_COVER(ret == 0);
-	VERIF_COVER(ret == -1);
 	if (ret == 0) {
 		sparse_map_t *last = NULL;
 
